@@ -887,6 +887,7 @@ class ExtendedZoneProcessor: public ZoneProcessor {
       }
 
       mYear = year;
+      mIsFilled = false; // stays false if the year is out of range
       mNumMatches = 0; // clear cache
       mTransitionStorage.init();
 
